@@ -1,7 +1,7 @@
 (* C03 property theorems. Statements closed by `exact lemma`, followed by Print Assumptions; Examples show that the
    hypotheses are satisfiable. *)
 From Coq Require Import NArith ZArith List Bool Lia.
-From OG Require Import C03.Model C03.Proofs C03.ColModel C03.ColProofs.
+From OG Require Import C03.Model C03.Proofs C03.ColModel C03.ColProofs C03.FaultModel C03.FaultProofs.
 Import ListNotations.
 
 (* Main theorem, for the whole family of protocols "log first, log removal last, any interleaving of renaming the
@@ -194,3 +194,75 @@ Example wf_src_satisfiable :
   compact_col None 2 [mksrc [2; 1] None; mksrc [2; 2] (Some [[Some 1%Z; None]; [Some 2%Z; Some 3%Z]])]
   = [[None; None]; [None; Some 1%Z]; [None; Some 2%Z]; [Some 3%Z]].
 Proof. split; [repeat constructor; cbn; lia | vm_compute; reflexivity]. Qed.
+
+(* ---------- reorganisations that FAIL (I/O errors instead of process kills; FaultModel.replace_exec / merge_exec) ----------
+   Any set of failing file-system mutations (fails : ordinal of the attempt -> bool), today's or the repaired delete loop,
+   any in-use pattern: the disk state ReplaceFiles leaves behind is a crash-prefix state of a member of the protocol family,
+   hence the next start-up (with any crashes inside that recovery) shows exactly the old or exactly the new file set, no
+   .init file, no complete log, and is a fixpoint of recovery. *)
+Theorem C03_fault_restart_atomic : forall v inuse fails i0 st0 old new univ live cr,
+  protocol_pre st0 old new univ ->
+  let st' := recover_with_crashes univ cr (r_fs (replace_exec v inuse fails i0 old new st0 live)) in
+  ((forall n, visible st' n = view_old st0 n) \/ (forall n, visible st' n = view_new st0 old new n)) /\
+  (forall n, files st' (n, true) = None) /\ notfull st' /\ recover univ st' = st'.
+Proof. exact fault_restart_atomic. Qed.
+Print Assumptions C03_fault_restart_atomic.
+
+(* answers after the restart that follows a failed reorganisation = answers before it, for every reader semantics that
+   depends only on the visible files and agrees on the old and the new set *)
+Theorem C03_fault_contents_unchanged : forall (L : Type) (sem : (N -> option content) -> L) v inuse fails i0 st0 old new univ live cr,
+  protocol_pre st0 old new univ ->
+  (forall a b, (forall n, a n = b n) -> sem a = sem b) ->
+  sem (view_new st0 old new) = sem (view_old st0) ->
+  sem (visible (recover_with_crashes univ cr (r_fs (replace_exec v inuse fails i0 old new st0 live)))) = sem (view_old st0).
+Proof.
+  intros L sem v inuse fails i0 st0 old new univ live cr Hp Hext Heq.
+  exact (contents_unchanged L sem st0 old new _ Hext Heq (proj1 (fault_restart_atomic v inuse fails i0 st0 old new univ live cr Hp))).
+Qed.
+Print Assumptions C03_fault_contents_unchanged.
+
+(* the LIVE file list (what running queries read) with the repaired delete loop: unchanged or completely swapped, never
+   partial, whatever fails; and for both variants: no error returned -> completely swapped *)
+Theorem C03_fault_live_atomic_repaired : forall inuse fails i0 old new st live,
+  let r := replace_exec Repaired inuse fails i0 old new st live in
+  r_live r = live \/ r_live r = swapped old new live.
+Proof. exact live_atomic_repaired. Qed.
+Print Assumptions C03_fault_live_atomic_repaired.
+
+Theorem C03_fault_success_swapped : forall v inuse fails i0 old new st live,
+  let r := replace_exec v inuse fails i0 old new st live in
+  r_err r = false -> r_live r = swapped old new live.
+Proof. exact live_success_swapped. Qed.
+Print Assumptions C03_fault_success_swapped.
+
+(* out-of-order merge, repository order (replace, then delete the inputs only if the replacement returned no error): whatever
+   fails, either no out-of-order input has left the live list, or the ordered list has been swapped completely and all
+   inputs have left; on disk the inputs are untouched whenever the replacement returned an error. This is the obligation
+   "delete the out-of-order inputs only after the replacement is committed". *)
+Theorem C03_merge_unordered_after_commit : forall v inuse fails old new unord st liveO liveU,
+  let m := merge_exec false v inuse fails old new unord st liveO liveU in
+  m_liveU m = liveU \/ (m_liveO m = swapped old new liveO /\ m_liveU m = lrm_all unord liveU).
+Proof. exact unordered_after_commit. Qed.
+Print Assumptions C03_merge_unordered_after_commit.
+
+Theorem C03_merge_unordered_disk_after_commit : forall v inuse fails old new unord st liveO liveU,
+  let r := replace_exec v inuse fails 0 old new st liveO in
+  let m := merge_exec false v inuse fails old new unord st liveO liveU in
+  r_err r = true -> m_fs m = r_fs r.
+Proof. exact unordered_disk_after_commit. Qed.
+Print Assumptions C03_merge_unordered_disk_after_commit.
+
+(* sensitivity (documented mutant): deleting the out-of-order inputs BEFORE the replacement loses them when the replacement
+   then fails (here: the intent log cannot be created) *)
+Theorem order_matters_refuted_unordered_deleted_before_replace :
+  exists inuse fails old new unord st liveO liveU,
+    let m := merge_exec true Repaired inuse fails old new unord st liveO liveU in
+    m_liveO m = liveO /\ m_liveU m <> liveU /\ files (m_fs m) (9%N, false) = None /\ files st (9%N, false) <> None.
+Proof. exact early_unordered_delete_refuted. Qed.
+Print Assumptions order_matters_refuted_unordered_deleted_before_replace.
+
+Example fault_rename_error_rolls_forward :
+  map (visible (recover [0; 1; 2; 3]%N (r_fs (replace_exec Repaired (fun _ => false) (fun i => Nat.eqb i 4) 0 [0; 1]%N [2; 3]%N ex_fs [0; 1; 7]%N))))
+      [0; 1; 2; 3; 7]%N = [None; None; Some 12; Some 13; Some 17]%N /\
+  r_live (replace_exec Repaired (fun _ => false) (fun i => Nat.eqb i 4) 0 [0; 1]%N [2; 3]%N ex_fs [0; 1; 7]%N) = [0; 1; 7]%N.
+Proof. vm_compute. split; reflexivity. Qed.
